@@ -181,7 +181,15 @@ func (in *Interp) rangeNext(fr *frame, x *ssa.Next) Value {
 			r.Pos++
 			return Tuple{tf.T, IntV{tf.BV(64, uint64(pos))}, IntV{tf.Resize(b, 32, false)}}
 		}
-		in.unsupported("range over string with non-ASCII symbolic byte")
+		// a multi-byte (or ill-formed) sequence: the decode model gives the rune and its width
+		rest := &Str{Alts: []SAlt{mkAlt(tf.T, append([]*Term{}, r.A.Sym[pos:]...))}}
+		dec := in.decodeRune(rest).(Tuple)
+		width := int(in.concretizeInt(dec[1].(IntV).T, true))
+		if width < 1 {
+			width = 1
+		}
+		r.Pos += width
+		return Tuple{tf.T, IntV{tf.BV(64, uint64(pos))}, dec[0]}
 	}
 	in.unsupported("Next on %T", it)
 	return nil
